@@ -57,6 +57,15 @@ def index_patterns(body, k, limit=8):
     return pats[:limit]
 
 
+def _mk(quant, k, f, pats):
+    if pats:
+        try:
+            return quant([k], f, patterns=pats)
+        except z3.Z3Exception:
+            pass        # a trigger mentions an enclosing binder: let z3 choose
+    return quant([k], f)
+
+
 def _window(eng, lo, hi):
     n = eng.finite
     eng.ctx.finite_assumptions.append(z3.Or(hi <= lo, z3.And(lo >= -1, hi <= n + 1)))
@@ -69,7 +78,7 @@ def forall(eng, lo, hi, body_fn, name="q"):
         body = body_fn(k)
         pats = index_patterns(body, k)
         f = z3.Implies(z3.And(k >= lo, k < hi), body)
-        q = z3.ForAll([k], f, patterns=pats) if pats else z3.ForAll([k], f)
+        q = _mk(z3.ForAll, k, f, pats)
         offs = getattr(eng, "reindex", None)
         if offs:
             # a callee clause about a slice argument xs[a:b]: also state it over the base
@@ -81,7 +90,7 @@ def forall(eng, lo, hi, body_fn, name="q"):
                 body2 = z3.simplify(body_fn(k2 - o))
                 pats2 = index_patterns(body2, k2)
                 if pats2:
-                    parts.append(z3.ForAll([k2], z3.Implies(z3.And(k2 >= lo + o, k2 < hi + o), body2), patterns=pats2))
+                    parts.append(_mk(z3.ForAll, k2, z3.Implies(z3.And(k2 >= lo + o, k2 < hi + o), body2), pats2))
             return z3.And(parts)
         return q
     return z3.And([z3.Implies(z3.And(lo <= i, i < hi), body_fn(z3.IntVal(i))) for i in _window(eng, lo, hi)])
@@ -93,7 +102,7 @@ def exists(eng, lo, hi, body_fn, name="q"):
         body = body_fn(k)
         pats = index_patterns(body, k)
         f = z3.And(k >= lo, k < hi, body)
-        q = z3.Exists([k], f, patterns=pats) if pats else z3.Exists([k], f)
+        q = _mk(z3.Exists, k, f, pats)
         offs = getattr(eng, "reindex", None)
         if offs:
             parts = [q]
@@ -102,7 +111,7 @@ def exists(eng, lo, hi, body_fn, name="q"):
                 body2 = z3.simplify(body_fn(k2 - o))
                 pats2 = index_patterns(body2, k2)
                 if pats2:
-                    parts.append(z3.Exists([k2], z3.And(k2 >= lo + o, k2 < hi + o, body2), patterns=pats2))
+                    parts.append(_mk(z3.Exists, k2, z3.And(k2 >= lo + o, k2 < hi + o, body2), pats2))
             return z3.Or(parts)
         return q
     return z3.Or([z3.And(lo <= i, i < hi, body_fn(z3.IntVal(i))) for i in _window(eng, lo, hi)])
